@@ -799,4 +799,12 @@ theorem classification_total' {Ï‡ : Type} (given : Option LType) (rows : List (Ï
     | atom v => exact âŸ¨_, by simp only [read, ht, hd, sortedSet_of_homogeneous hh]; rflâŸ©
     | list vs => exact âŸ¨_, by simp only [read, ht, hd, sortedSet_of_homogeneous hh]; rflâŸ©
 
+/-! #### already labelled sources: explicit label type first, then the rows' own `tipe` -/
+
+theorem explicit_type_wins' {Ï‡ : Type} (t : LType) (tipe : Option LType) (r : Ï‡ Ã— Label) (rest : List (Ï‡ Ã— Label)) :
+    typeOf (resolveGiven (some t) tipe) (r :: rest) = some t := rfl
+
+theorem source_type_used' {Ï‡ : Type} (t : LType) (r : Ï‡ Ã— Label) (rest : List (Ï‡ Ã— Label)) :
+    typeOf (resolveGiven none (some t)) (r :: rest) = some t := rfl
+
 end Coba.C14
